@@ -271,6 +271,25 @@ def rule_pairing(ctx: Ctx) -> None:
     add = ctx.func(f"{LM}.create_loan")
     ctx.check(any((A.call_name(c) or "") == "self._loans.add" for c in A.func_calls(add)), "C02.4", "created loans are registered", add,
               add.node, "self._loans.add(loan)", "created loan is not registered", key_text="loan registered")
+    # registering is not allowed to be a silent no-op (e.g. 'already tracked: return'): the loan would be credited but not recorded
+    cadd = ctx.func("basana.backtesting.helpers.ExchangeObjectContainer.add")
+    gca = ctx.cfg(cadd)
+    ist = [s_ for s_ in A.stores(cadd) if isinstance(s_.target, ast.Subscript) and A.dotted(s_.target.value) == "self._items"]
+    reg_always = bool(ist) and gca.always_followed_by(gca.entry, lambda n: any(n in gca.nodes_for(s_.stmt) for s_ in ist), labels=C.NO_EXC) is None
+    ctx.check(reg_always, "C02.4", "ExchangeObjectContainer.add records the item on every normal path", cadd, ist[0].stmt if ist else cadd.node,
+              "self._items[item.id] = item post-dominates entry", "add() can return without recording the item (a duplicate id is silently ignored): the borrowed "
+              "amount was already credited, so the account owes funds that no open loan accounts for", key_text="add records")
+    # loan ids are unique per loan (random), never derived from the request
+    for cls_ in ctx.facts.subclasses("basana.backtesting.lending.base.LendingStrategy"):
+        f_ = ctx.repo.funcs.get(f"{cls_}.create_loan")
+        if f_ is None:
+            continue
+        for c_ in [c for r in C.walk_shallow(f_.node) if isinstance(r, ast.Return) and isinstance(r.value, ast.Call) for c in [r.value]]:
+            from .. import norm as N
+            id_arg = N.canon(N.expand(f_, c_.args[0])) if c_.args else ""
+            ctx.check("uuid.uuid4()" in id_arg, "C02.4", f"{cls_.rsplit('.', 1)[-1]} gives every loan its own random id", f_, c_, id_arg[:50],
+                      f"the loan id is '{id_arg[:60]}': two loans can get the same id, the second is then not recorded separately while its amount is borrowed",
+                      key_text=f"loan id {cls_}")
     # between the ledger commit and the registration nothing may fail: otherwise borrowed > 0 with no open loan behind it
     ga = ctx.cfg(add)
     upc = [c for c in A.func_calls(add) if (A.call_name(c) or "").endswith("account_balances.update")]
